@@ -28,7 +28,7 @@ def c17(run):
         "coap_subscribe.c): decides the structural clauses 'a stream is only read/written if its open mode allows it' and, per "
         "updater, 'only the .tmp copy is written, the real file is never opened truncating, rename() is reached only after a "
         "flush/close of the .tmp stream whose tested result is success'. These are necessary for 'old or new complete state "
-        "after a crash'; restart behaviour and Observe counter values are NOT decided. A record that is only copied into the new file is written back with exactly the variables the read call of that loop filled (R-PERSIST copy-through). No remove()/unlink() is applied to the destination of a function's rename() (one atomic step).")
+        "after a crash'; restart behaviour and Observe counter values are NOT decided. A record that is only copied into the new file is written back with exactly the variables the read call of that loop filled (R-PERSIST copy-through). No remove()/unlink() is applied to the destination of a function's rename() (one atomic step). The raw request recorded for a dynamically created resource spans header and body (raw packet).")
 
 
 def c13(run):
@@ -72,6 +72,8 @@ def c18(run):
     r_consume.run_handback(run, P)
     from rules import r_ownraw
     r_ownraw.run(run, P)
+    from rules import r_relonce
+    r_relonce.run(run, P)                # a body handed to coap_add_data_large_*() is released exactly once, also when a later allocation fails
     from rules import r_noexit
     r_noexit.run(run, P)
     run.assumptions = ASSUME_COMMON + ["every allocation funnels through coap_malloc_type/coap_realloc_type/malloc/calloc/realloc/strdup",
@@ -83,7 +85,7 @@ def c18(run):
         "given its own buffer (R-SHALLOW-ALIAS); a record allocated in a function is not released with the raw allocator call while fields of it still "
         "hold objects created on that path (R-HOLDER-LEAK); strings, binaries, option lists and cache keys created in a function are released, stored, returned or handed "
         "on on every path, error paths included (R-OWN-LOCAL); a local pointer handed to a (computed, must-free) destructor is not used again before it is "
-        "re-assigned (R-USE-AFTER-DESTROY). Necessary for 'allocation failure is survived without crash or leak'. The result of a reallocating call is never stored into the pointer that was passed as the old block, and no field of the owning parameter object is changed ahead of a reallocation that fails (R-REALLOC-COMMIT); GnuTLS's allocators (function-pointer variables) are may-fail constructors too. A function that takes over an object it is handed agrees over all its failure returns on who owns it afterwards (R-CONSUME-AGREE); no library function calls exit/abort (R-NO-EXIT: the out-of-memory arm of the bundled uthash's HASH_ADD does, at six sites, which are known findings). A record field handed to a may-delete-and-return helper is assigned again on every path after the call (hand-back); scratch buffers are released on every path (R-OWN-RAW).")
+        "re-assigned (R-USE-AFTER-DESTROY). Necessary for 'allocation failure is survived without crash or leak'. The result of a reallocating call is never stored into the pointer that was passed as the old block, and no field of the owning parameter object is changed ahead of a reallocation that fails (R-REALLOC-COMMIT); GnuTLS's allocators (function-pointer variables) are may-fail constructors too. A function that takes over an object it is handed agrees over all its failure returns on who owns it afterwards (R-CONSUME-AGREE); no library function calls exit/abort (R-NO-EXIT: the out-of-memory arm of the bundled uthash's HASH_ADD does, at six sites, which are known findings). A record field handed to a may-delete-and-return helper is assigned again on every path after the call (hand-back); scratch buffers are released on every path (R-OWN-RAW). The body's release callback is stored in the transfer record before the first failure exit that relies on the record to run it (R-RELEASE-ONCE under C18).")
 
 
 def c12(run):
@@ -96,6 +98,7 @@ def c12(run):
     r_session.run_teardown(run, P)
     r_session.run_hashed(run, P)
     r_session.run_touch(run, P)
+    r_session.run_key_zero(run, P)
     from rules import r_consume
     r_consume.run(run, P)
     from rules import r_ownraw
@@ -111,7 +114,7 @@ def c12(run):
         "Reference discipline of sessions decided on every path: temporary references are released in the same function (R-REF-TMP); objects "
         "holding a session reference (computed: queue nodes, subscriptions, async entries) release it before they are freed or cleared "
         "(R-REF-HOLD); a server session is never freed without SERVER_SESSION_DEL and NEW is raised once (R-SESS-EVT); function-local owners "
-        "of strings/binaries/optlists/cache keys are disposed of on every path (R-OWN-LOCAL). Necessary for 'live while referenced, everything released'. After a holder's session reference was released the field is overwritten or the holder freed raw on every path (R-REF-HOLD stale); a session made in a function is freed there only after it was added to a session table (R-SESS-HASHED). A function that takes over an object it is handed agrees over all its failure returns on who owns the object afterwards (R-CONSUME-AGREE). Scratch buffers (raw allocations the function itself frees) are released on every path (R-OWN-RAW); a session found by the hash look-up is returned only after last_rx_tx was refreshed (idle accounting).")
+        "of strings/binaries/optlists/cache keys are disposed of on every path (R-OWN-LOCAL). Necessary for 'live while referenced, everything released'. After a holder's session reference was released the field is overwritten or the holder freed raw on every path (R-REF-HOLD stale); a session made in a function is freed there only after it was added to a session table (R-SESS-HASHED). A function that takes over an object it is handed agrees over all its failure returns on who owns the object afterwards (R-CONSUME-AGREE). Scratch buffers (raw allocations the function itself frees) are released on every path (R-OWN-RAW); a session found by the hash look-up is returned only after last_rx_tx was refreshed (idle accounting). The record that files and finds sessions by its bytes is zeroed as a whole before its fields are set, in its constructor and for every local look-up key (R-SESS-KEY).")
 
 
 CODEC_UNITS = ('coap_pdu.c', 'coap_option.c')
@@ -145,7 +148,7 @@ def c01(run):
         "Writer/reader table agreement decided statically: the thresholds, arm offsets and nibble splits of every option/TCP-length/token-length "
         "encoder and decoder equal the RFC 7252/8323/8974 tables and each other, the decoder's option-number bound as folded by the compiler equals the "
         "builder's (R-CODEC-TAB); no store passes through a narrowing explicit cast that can lose bits (R-WIDTH); the builder never uses a buffer "
-        "pointer across a reallocation and moves payload pointer and size together (R-FIXUP). Necessary conditions of the round trip. Every ordering comparison against the extended-token bias macros cuts the application token lengths exactly at 13 / 269 (R-CODEC-TAB 7, by enumeration over all token lengths). The largest token the library accepts is the RFC 8974 maximum as the compiler folded it (8); a stored payload marker is followed by payload of known non-zero length (9); an editor advances used_size only after coap_opt_encode() succeeded (R-FIXUP).")
+        "pointer across a reallocation and moves payload pointer and size together (R-FIXUP). Necessary conditions of the round trip. Every ordering comparison against the extended-token bias macros cuts the application token lengths exactly at 13 / 269 (R-CODEC-TAB 7, by enumeration over all token lengths). The largest token the library accepts is the RFC 8974 maximum as the compiler folded it (8); a stored payload marker is followed by payload of known non-zero length (9); an editor advances used_size only after coap_opt_encode() succeeded (R-FIXUP). After a removal max_opt comes from the options that remain; coap_pdu_resize() re-bases data against the old token pointer; the stream frame size adds the token-extension bytes.")
 
 
 def c03(run):
@@ -170,7 +173,7 @@ def c03(run):
         "16-bit delta / running number with wrap-guard or range-guard discharge, R-WIDTH); decoder tables agree with the encoder's and the RFCs "
         "(R-CODEC-TAB); every reject condition of the frozen table (nibble 15, TKL 15, token longer than message, marker without payload, "
         "non-empty Empty, option-number overflow, runt) exists and every path through its rejecting arm returns 0, and coap_dispatch is reached only "
-        "after successful parser calls (R-PARSE-GATE). The accept flag a decoding function collects over several checks is never raised again once it is 0 (R-PARSE-GATE verdict); token-length thresholds cut at 13 / 269 (R-CODEC-TAB 7). A stored payload marker is followed by payload of known non-zero length (R-CODEC-TAB 9).")
+        "after successful parser calls (R-PARSE-GATE). The accept flag a decoding function collects over several checks is never raised again once it is 0 (R-PARSE-GATE verdict); token-length thresholds cut at 13 / 269 (R-CODEC-TAB 7). A stored payload marker is followed by payload of known non-zero length (R-CODEC-TAB 9). An argument implicitly narrowed to an 8-/16-bit parameter in the decoding units is proven to fit (R-WIDTH d: the per-option limits see the full option length).")
 
 
 def c04(run):
@@ -196,7 +199,7 @@ def c04(run):
     return run.finish(
         "In-place editors (coap_update_token, coap_remove_option, coap_insert_option, coap_update_option and the codec units): every adjustment of "
         "used_size is matched by the same adjustment of a non-NULL payload pointer and equals the memmove distance, no pointer into the buffer is used "
-        "after a call that may reallocate it (R-FIXUP), and no length is stored through a narrowing explicit cast that can truncate it (R-WIDTH). Token-length thresholds are applied so that they cut the application token lengths at 13 / 269 (R-CODEC-TAB 7). An editor advances used_size only after coap_opt_encode() succeeded (R-FIXUP, bytes before bookkeeping).")
+        "after a call that may reallocate it (R-FIXUP), and no length is stored through a narrowing explicit cast that can truncate it (R-WIDTH). Token-length thresholds are applied so that they cut the application token lengths at 13 / 269 (R-CODEC-TAB 7). An editor advances used_size only after coap_opt_encode() succeeded (R-FIXUP, bytes before bookkeeping). After a removal max_opt is recomputed from the options that remain (R-FIXUP max_opt).")
 
 
 def c05(run):
@@ -206,6 +209,7 @@ def c05(run):
     r_stream.run_phase(run, P)
     r_stream.run_cursor(run, P)
     r_stream.run_needed_len(run, P)
+    r_stream.run_unit_complete(run, P)
     r_stream.run_cap(run, P)
     r_stream.run_cap_own(run, P)
     run.min_instances('R-STREAM-ADV', 4)
@@ -216,7 +220,7 @@ def c05(run):
         "Stream readers (TCP three-state reader, WebSocket frame and handshake readers): every transfer of n bytes to buffer+counter is followed by "
         "an advance of that counter by the same n or a reset, on every path (R-STREAM-ADV); a length declared by the peer reaches an allocation/copy/"
         "read size only after the non-exceeding arm of a comparison with a maximum, the exceeding arm reaches a closing call, and a full handshake "
-        "line buffer is rejected (R-STREAM-CAP). Necessary for 'same messages however the stream is cut' and 'over-long closes the session'. The receive limit, once our own maximum is set, is computed without any session field the peer can set (R-STREAM-CAP own limit; peer-settable fields computed from the assignments of decoded option values). A position is never SET to the size of the piece just stored unless it is known 0, and the local that is compared as needed length with a progress counter is not increased after that comparison let the function carry on (R-STREAM-ADV).")
+        "line buffer is rejected (R-STREAM-CAP). Necessary for 'same messages however the stream is cut' and 'over-long closes the session'. The receive limit, once our own maximum is set, is computed without any session field the peer can set (R-STREAM-CAP own limit; peer-settable fields computed from the assignments of decoded option values). A position is never SET to the size of the piece just stored unless it is known 0, and the local that is compared as needed length with a progress counter is not increased after that comparison let the function carry on (R-STREAM-ADV). The header is handed to the size function with a length only under a condition that mentions every variable of that length (unit complete).")
 
 
 def c16(run):
@@ -255,6 +259,8 @@ def c15(run):
     r_ssn.run(run, P)
     r_ssn.run_echo_piv(run, P)
     r_ssn.run_ctx_siblings(run, P)
+    from rules import r_width
+    r_width.run_e(run, P)
     run.min_instances('R-RANGE', 4)
     run.min_instances('R-REPLAY-OWN', 8)
     run.min_instances('R-REPLAY-RB', 5)
@@ -266,7 +272,7 @@ def c15(run):
         "(R-REPLAY-RB); every accepted request passed a successful validation (R-REPLAY-MUST); the sender sequence number is only stepped by +1, "
         "advanced exactly once between its use as partial IV and the successful return, and compared with the persisted watermark such that the "
         "skipping arm implies used+1 <= next_seq while the other arm advances next_seq and hands it to the save callback (R-SSN-ORDER). Seven genuine defects of the current tree are "
-        "listed in known_findings.txt and re-observed on every run. A freshly built Echo challenge is protected with its own Partial IV on every path (R-SSN-ORDER Echo). Every setting the configuration constructor takes from coap_oscore_conf_t is assigned by the copying (Appendix B.2) constructor (constructors agree).")
+        "listed in known_findings.txt and re-observed on every run. A freshly built Echo challenge is protected with its own Partial IV on every path (R-SSN-ORDER Echo). Every setting the configuration constructor takes from coap_oscore_conf_t is assigned by the copying (Appendix B.2) constructor (constructors agree). A stored difference of 64-bit counters (the distance behind the newest sequence number) keeps its width until a comparison has judged it (R-WIDTH e).")
 
 
 def c08(run):
@@ -277,6 +283,8 @@ def c08(run):
     r_cnt.run_counted_queued(run, P)
     r_cnt.run_reset_drains(run, P)
     r_cnt.run_flush_order(run, P)
+    from rules import r_delayq
+    r_delayq.run(run, P)                 # if the session fails, each held Confirmable is reported by a NACK
     from rules import r_midzero
     r_midzero.run(run, P)
     from rules import r_ownnode
@@ -302,6 +310,7 @@ def c06(run):
     r_cnt.run_counted_queued(run, P)     # a counted Confirmable is queued for retransmission (or un-counted): it cannot vanish without an outcome
     from rules import r_timer
     r_timer.run(run, P)
+    r_cnt.run_flush_order(run, P)        # a held Confirmable is released when the slot in front of it is freed
     from rules import r_midzero
     r_midzero.run(run, P)
     run.min_instances('R-OWN-NODE', 8)
@@ -328,6 +337,7 @@ def c10(run):
     r_reply.run(run, P)
     r_reply.run_ack_con(run, P)
     r_reply.run_resolve_order(run, P)
+    r_reply.run_helper_verdict(run, P)
     from rules import r_suppress
     r_suppress.run(run, P)
     from rules import r_ownnode
@@ -345,7 +355,7 @@ def c10(run):
         "coap_send_internal; R-OWN-PDU), and no path of coap_dispatch / handle_request passes two emission points other than the Empty-ACK-then-"
         "response pattern (R-REPLY-ONCE). Suppression table: every per-resource multicast suppression flag is paired with the response class its public "
         "name states, on the arm its polarity (ENA/DIS) demands, and leads to a drop; the flags are distinct bits; the No-Response bitmap is indexed "
-        "with class-1 (R-SUPPRESS-TAB). A token is copied into a reply with the length of the bytes it is copied from (R-PAIR-ARGS, library-wide). The unknown-resource handler is selected only after the request path was compared with the well-known URI or the HANDLE_WELLKNOWN_CORE flag found set (resolution order).")
+        "with class-1 (R-SUPPRESS-TAB). A token is copied into a reply with the length of the bytes it is copied from (R-PAIR-ARGS, library-wide). The unknown-resource handler is selected only after the request path was compared with the well-known URI or the HANDLE_WELLKNOWN_CORE flag found set (resolution order). A static helper that the dispatcher calls in a condition and that emits a reply returns 0 on every path that passed the emission (helper verdict).")
 
 
 def c09(run):
@@ -358,6 +368,9 @@ def c09(run):
     from rules import r_bodydone
     r_bodydone.run(run, P)
     r_bodydone.run_token_restore(run, P)
+    from rules import r_blkmore
+    r_blkmore.run(run, P)
+    r_blkmore.run_size_sync(run, P)
     run.min_instances('R-RELEASE-ONCE', 5)
     run.assumptions = ASSUME_COMMON + ["body integrity, tiling, at-most-once delivery, token hiding and size fitting (arithmetic over runtime lengths and schedules) are NOT decided",
                                        "paths on which taking the global lock fails carry no obligations"]
@@ -366,7 +379,7 @@ def c09(run):
         "coap_block.c is reached only with the compared length known to be within (for equality look-ups: equal to) the length of both operands, so a "
         "look-up cannot match a state whose key differs in length or was compared over the wrong length (R-CMP-BOUND). (2) 'the sender's release callback runs exactly once'. For every function taking a release_func parameter, on "
         "every path with release_func not known NULL the callback is called exactly once, handed to a callee with the same obligation, or stored "
-        "into an lg_xmit that is linked into session->lg_xmit or deleted; coap_block_delete_lg_xmit calls it exactly once (R-RELEASE-ONCE). A reassembled request body is handed to the application from a block with the More bit set only on paths that found the record's no_more_seen flag set (R-BODY-COMPLETE; the Q-Block1 arm violates this and is a known finding). When a response handler expires a transfer record and hands the response up, the application's token is back in the received PDU (or was compared) on every path (application token clause).")
+        "into an lg_xmit that is linked into session->lg_xmit or deleted; coap_block_delete_lg_xmit calls it exactly once (R-RELEASE-ONCE). A reassembled request body is handed to the application from a block with the More bit set only on paths that found the record's no_more_seen flag set (R-BODY-COMPLETE; the Q-Block1 arm violates this and is a known finding). When a response handler expires a transfer record and hands the response up, the application's token is back in the received PDU (or was compared) on every path (application token clause). Every More bit computed for a body being sent equals `length - offset > bytes in this block` (R-BLK-MORE, enumerated), and in the function that selects its own block size the record's requested chunk_size is read only after the record was re-synchronised (one block size).")
 
 
 def c20(run):
@@ -374,6 +387,8 @@ def c20(run):
     P = run.prog('rel')
     from rules import r_attrflags
     r_attrflags.run(run, P)
+    from rules import r_blkmore
+    r_blkmore.run(run, P)
     r_outbound.run(run, P)
     from rules import r_cmpbound
     n = r_cmpbound.run(run, P, only={'match', 'coap_print_wellknown_lkd', 'coap_find_attr'})
@@ -385,7 +400,7 @@ def c20(run):
         "of coap_print_link / coap_print_wellknown_lkd happens on a path that holds cursor < end for the current cursor value, and the space handed "
         "down to coap_print_link is end - cursor of the current cursor (R-OUT-BOUND). Filter: every comparison of the query pattern with an attribute value, "
         "a space-separated token of it or a path is bounded by, and an exact match is decided against, the length of the string actually compared "
-        "(R-CMP-BOUND). The copy decision for an attribute string is taken from the release flag of that string (R-ATTR-FLAGS).")
+        "(R-CMP-BOUND). The copy decision for an attribute string is taken from the release flag of that string (R-ATTR-FLAGS). Every More bit libcoap computes for a body it sends (the block-wise GET of the listing included) equals `length - offset > bytes in this block` for all small lengths, offsets and block sizes (R-BLK-MORE).")
 
 
 def c19(run):
@@ -430,7 +445,7 @@ def c14(run):
         "reached only with the result of cose_encrypt0_decrypt known > 0 (R-OSC-SPLIT); (3) the association that carries the request's AAD, "
         "nonce and partial IV to the response is filled, refreshed and read back field-for-field from the COSE object's fields of the same role "
         "(R-OSC-ROLE, roles computed from the two record types); (4) every local flag that steers an RFC 8613 step in the protect / unprotect "
-        "functions can have its non-initial value where it is tested (reaching definitions). The option decoder examines all eight bits of the flag byte (R-OSC-FLAGS). The CBOR head writer produces the RFC 8949 form at the boundary values of every form (R-OSC-CBOR).")
+        "functions can have its non-initial value where it is tested (reaching definitions). The option decoder examines all eight bits of the flag byte (R-OSC-FLAGS). The CBOR head writer produces the RFC 8949 form at the boundary values of every form (R-OSC-CBOR). While the iterator walks the received PDU every class E option number is on the discard arm (outer discard).")
 
 
 def c02(run):
@@ -440,6 +455,8 @@ def c02(run):
     r_range.run_cbor(run, P)
     r_range.run_cbor_reader(run, P)
     r_range.run_token_ext(run, P)
+    from rules import r_codec
+    r_codec.run_tokext(run, P)            # the stream reader frames messages with coap_pdu_parse_size(): its token-extension sums agree with the decoder's
     r_shift.run(run, P, units=('oscore.c', 'oscore_cbor.c'))
     r_stream.run_cap(run, P)
     r_stream.run_cap_own(run, P)
@@ -447,6 +464,7 @@ def c02(run):
     r_stream.run_phase(run, P)
     r_stream.run_cursor(run, P)
     r_stream.run_needed_len(run, P)
+    r_stream.run_unit_complete(run, P)
     r_parsegate.run(run, P)
     r_fixup.run_stale(run, P)
     from rules import r_cmpbound
@@ -482,7 +500,7 @@ def c02(run):
         "leads to rejection (R-PARSE-GATE); no pointer into a PDU buffer is used after a call that may reallocate it, library-wide (R-FIXUP); every "
         "memcmp/strncmp over a length-delimited string is bounded by that string's own length (R-CMP-BOUND); a persistent element count that bounds a "
         "fixed-size array (block reassembly tracker) only grows behind one common capacity guard (R-COUNT-CAP); a local copy of an owned pointer "
-        "field is not used after a call that is handed the owning object and may free that field (R-STALE-COPY). A function that was given the capacity of the buffer it fills compares against it before every variable-size copy (R-WRITE-CAP, NDEBUG build); the measuring and the filling pass of the two-pass string builders count and store the same number of bytes for every byte value (R-SIZE-FILL); a call that is handed X.length is handed X.s (R-PAIR-ARGS); the receive limit, once our own maximum is set, uses no peer-settable session field (R-STREAM-CAP own limit). Header fields (code, type) of a PDU parameter are wire-derived for R-RANGE, and the interval engine knows the unsigned range idiom (size_t)v - K1 < K; a stream position is never set to the size of the piece just stored and a needed header length is final when compared with what has arrived (R-STREAM-ADV).")
+        "field is not used after a call that is handed the owning object and may free that field (R-STALE-COPY). A function that was given the capacity of the buffer it fills compares against it before every variable-size copy (R-WRITE-CAP, NDEBUG build); the measuring and the filling pass of the two-pass string builders count and store the same number of bytes for every byte value (R-SIZE-FILL); a call that is handed X.length is handed X.s (R-PAIR-ARGS); the receive limit, once our own maximum is set, uses no peer-settable session field (R-STREAM-CAP own limit). Header fields (code, type) of a PDU parameter are wire-derived for R-RANGE, and the interval engine knows the unsigned range idiom (size_t)v - K1 < K; a stream position is never set to the size of the piece just stored and a needed header length is final when compared with what has arrived (R-STREAM-ADV). Separators of the query reconstruction are decided by segment count (R-SIZE-FILL separators); a maybe-NULL call result does not reach a dereferencing libc routine untested (R-NULL-RET); token[K] extension bytes are read only where the length is known > K (R-RANGE).")
 
 
 def c07(run):
@@ -491,6 +509,7 @@ def c07(run):
     r_response.run(run, P)
     from rules import r_width
     r_width.run_c(run, P)        # the 'none yet' sentinels of the duplicate filter (last_con_mid / last_ack_mid) stay outside the mid space
+    r_response.run_async_pending(run, P)
     from rules import r_ownnode
     r_ownnode.run_queue_key(run, P)      # an ACK / RST / duplicate retires only the request of its own session and message id: no other request loses its retransmission
     run.min_instances('R-RESP', 4)
@@ -503,7 +522,7 @@ def c07(run):
         "handler); exactly one ACK/RST for the received PDU after the handler, the Reset exactly on the FAIL-and-not-ACK arm, with the recorded verdict "
         "agreeing; a non-ACK response cancels the request's retransmission by token before the handler; a response consumed by sending the next Block1 is "
         "acknowledged (R-RESP). Library-wide, a named constant stored into a record field fits the field's type, so the "
-        "COAP_INVALID_MID marker of the duplicate filter cannot wrap onto a legal message id (R-WIDTH c). An ACK / RST / duplicate retires only the queued request of its own session and message id (R-QUEUE-KEY).")
+        "COAP_INVALID_MID marker of the duplicate filter cannot wrap onto a legal message id (R-WIDTH c). An ACK / RST / duplicate retires only the queued request of its own session and message id (R-QUEUE-KEY). The pending test of handle_request() and the due test of the async scheduler partition the values of async->delay (async pending).")
 
 
 def c11(run):
@@ -523,7 +542,7 @@ def c11(run):
         "notification is made Non-confirmable only below COAP_OBS_MAX_NON consecutive ones (or NON_ALWAYS / the final 4.04) and the counter is reset / "
         "incremented to match the chosen type before the transmission (R-OBS-CON, coap_notify_observers); a Reset that matches a queued message reaches "
         "coap_cancel(), which removes the observer (R-OBS-RST, coap_dispatch); an observer skipped before its notification was handed to the transmit path is marked "
-        "dirty so that the partially-dirty pass visits it again (R-OBS-DIRTY, coap_notify_observers). The subscription found by cache key is deleted by its own token (R-OBS-REPLACE). coap_delete_observer() is given a looked-at subscription's token only with a session known to be that subscription's (R-OBS-RST whose observer).")
+        "dirty so that the partially-dirty pass visits it again (R-OBS-DIRTY, coap_notify_observers). The subscription found by cache key is deleted by its own token (R-OBS-REPLACE). coap_delete_observer() is given a looked-at subscription's token only with a session known to be that subscription's (R-OBS-RST whose observer). The function that drops a lost session's observers visits every element of the list (delete all).")
 
 
 PROPS = {
